@@ -439,7 +439,14 @@ def err_reply(e):
     k = core.exc_kind(e)
     if k in FAMILY:
         return {"r": "err", "k": k}
-    return {"r": "err", "k": "other", "exc": type(e).__name__}
+    site = "?"
+    try:
+        import traceback
+        fr = traceback.extract_tb(e.__traceback__)[-1]
+        site = "%s:%d:%s" % (os.path.basename(fr.filename), fr.lineno, fr.name)
+    except Exception:
+        pass
+    return {"r": "err", "k": "other", "exc": type(e).__name__, "site": site}
 
 
 def impl_encode(node, obj):
@@ -625,6 +632,18 @@ def run_type(ctx, drv_reqs, node, cases):
             elif dec["re"]["hex"] != case_hex:
                 ctx.fail("reencode-octets", dict(case, hex=case_hex, re=dec["re"]["hex"]),
                          "re-encoded octets differ for %s" % node.name, type=node.name)
+        # --- APCISequence: a tag after the last parameter must be refused (TooManyArguments
+        #     or another reject-family error), never silently accepted
+        if dec is not None and node.apci:
+            extra = enc["tags"] + [[1, 250, 1, "00"]]
+            try:
+                impl_decode(node, extra, True)
+                ctx.fail("trailing-accepted", dict(case, tags=extra),
+                         "%s accepts a PDU with a tag after its last parameter" % node.name, type=node.name)
+            except Exception as e:
+                if core.exc_kind(e) not in FAMILY:
+                    ctx.fail("trailing-wrong-error", dict(case, tags=extra),
+                             "%s: trailing tag raises %s" % (node.name, type(e).__name__), type=node.name)
         # --- model requests
         drv_reqs.append(({"op": "enc", "t": node.idx, "v": v}, {"r": "ok", "tags": enc["tags"], "hex": enc["hex"]},
                          case))
@@ -723,6 +742,29 @@ def run_malformed(ctx, drv, recs_by_type, rng, per_type):
     else:
         for _ in cases:
             ctx.count("malformed")
+
+
+def census_nonfamily(ctx, n_per_type):
+    """which exceptions OUTSIDE the decoding / reject family still escape the
+    decoders on malformed tag lists (relevant to C10): one witness per site"""
+    sch = schema()
+    rng = ctx.sub_rng("c03-census")
+    g = Gen(rng)
+    sites = {}
+    for node in sch.nodes:
+        try:
+            good = [impl_encode(node, g.node_value(node, 0))["tags"] for _ in range(3)]
+        except Exception:
+            continue
+        for _ in range(n_per_type):
+            tags = mutate(rng.choice(good), rng)
+            case = {"op": "dec", "t": node.idx, "tags": tags, "pdu": node.apci}
+            a = impl(case, shape=True)
+            if a.get("r") == "err" and a.get("k") == "other":
+                key = "%s in %s" % (a.get("exc"), a.get("site"))
+                rec = sites.setdefault(key, {"count": 0, "witness": {"type": node.name, "tags": tags}})
+                rec["count"] += 1
+    ctx.extra["nonfamily_exception_sites"] = sites
 
 
 def check_schema(ctx, drv):
@@ -958,9 +1000,10 @@ def run(ctx):
             ctx.extra["types_violating_wf"] = [names[i] for i in info["bad"] if i < len(names)]
     run_corpus(ctx, drv)
     run_annex_f(ctx, drv)
+    census_nonfamily(ctx, 6 if ctx.quick else 60)
     n = len(sch.nodes)
     if ctx.quick:
-        specs = [(sl, 2, 6, "q%d" % k) for k, sl in enumerate(type_slices(n, 16))]
+        specs = [(sl, 10, 30, "q%d" % k) for k, sl in enumerate(type_slices(n, 16))]
     else:
         specs = []
         for rep in range(6):
